@@ -478,3 +478,34 @@ PROPS["C07"] = {
         "thorough": [{"mode": "rc", "cases": 60000, "max_size": 100}],
     },
 }
+
+PROPS["C13"] = {
+    "manifest": {
+        "level_text": ("The harness owns the schedule: mtbl/threadpool.c is compiled with its eleven pthread calls routed to a deterministic "
+                       "scheduler (harness/vsched.h) in which every thread is a real pthread parked on a semaphore and exactly one runs; at "
+                       "every synchronisation call the choice source decides who runs next and which waiter a signal wakes; spurious "
+                       "wake-ups can be injected; 'no enabled thread' is reported as deadlock structurally. Programs: the raw pool API (1-2 "
+                       "caller threads with their own result handlers sharing a pool, ordered and unordered jobs), a real pooled writer "
+                       "(output must be byte-identical to the un-pooled writer's), a real pooled sorter (drained, abandoned, or destroyed "
+                       "with jobs in flight). Choice sources: rapidcheck-generated tapes, and depth-first enumeration of ALL schedules "
+                       "within a preemption bound for the small-program family."),
+        "level_note": TRUST + " Preemption happens only at synchronisation calls (data races between two calls are C14's subject); beyond the preemption bound the search is random.",
+        "technique": "systematic schedule exploration with a harness-owned deterministic scheduler (stateless model checking style DFS with a preemption bound) + rapidcheck-generated schedules; oracle: result log / byte identity / model + structural deadlock detection",
+    },
+    "src": "props/C13.cpp", "extra_src": ["harness/shims/shims.c"], "shims": ["threadpool.sched", "sorter.mkshim"],
+    "level": "exploration",
+    "rule": ("mode rc: case = (program, pool size, jobs/blocks/chunks, ordered?, callers, spurious budget, choice tape); non-trivial when "
+             "the execution contained at least one preemption or allowed spurious wake-ups. mode dfs: one case = one member of the "
+             "small-program family (pool size 1-2, 0-3 jobs/blocks/chunks, ordered/unordered, 1-2 callers); every schedule with at most "
+             "`bound` preemptions is executed (counter schedules_explored; distinct by construction); class dfs_complete marks members "
+             "whose bounded schedule space was exhausted, dfs_capped those stopped at the execution cap."),
+    "expect_tags": ["prog_1", "prog_2", "prog_3", "preempted", "preemptions_ge3", "two_callers_sharing_pool", "unordered",
+                    "pool_saturated", "spurious_wakeups_allowed", "dfs_complete"],
+    "assumptions": ["programs under test are deterministic given the schedule (pure job callbacks, deterministic compression)"],
+    "tiers": {
+        "quick": [{"mode": "dfs", "kv": {"bound": 1, "cap": 4000, "members": 2}, "note": "all schedules with <= 1 preemption for 32 family members"},
+                  {"mode": "rc", "cases": 400, "max_size": 100}],
+        "thorough": [{"mode": "dfs", "kv": {"bound": 2, "cap": 150000, "members": 10}, "note": "all schedules with <= 2 preemptions for the whole family"},
+                     {"mode": "rc", "cases": 12000, "max_size": 100}],
+    },
+}
